@@ -1,9 +1,173 @@
 import Driver.Util
+import Lattigo.Model.LinTrans
 
+/-
+  C12 line protocol.
+    bsgsindex <diags> <slots> <N1>            → <j:i,i|j:i> <rotN1> <rotN2>
+    bestratio <diags> <slots> <logMaxRatio>   → N1
+    galels <nthRoot> <diags> <slots> <ratio>  → Galois elements (naive: in order; BSGS: sorted)
+    alloc <diags> <logCols> <ratio>           → N1 <keys of Vec>
+    at <keys> <i> <slots>                     → key found | err
+    permdiags <half> (M <row> <from> <to> <scaling>)*   → idx:vec|idx:vec
+    eval <scheme> nth= t= rows= logcols= mode= inplace= ctlvl= ctscale= outlvl= qmodt= v=
+         (LT ratio= lvl= scale= (D <idx> <vals>)*)*
+-/
 namespace Driver.C12
 open Driver
+open Lattigo.Model.LinTrans
+open Lattigo.Model
 
-/-- stub: replaced by the property's real handler -/
-def handle (_toks : List String) : String := badOp
+def showIdx (index : List (Int × List Int)) : String :=
+  if index.isEmpty then "-" else "|".intercalate (index.map fun ji => s!"{ji.1}:{showIVec ji.2}")
+
+structure RawLT where
+  ratio : Int
+  lvl : Nat
+  scale : Nat
+  diags : List (Int × List Int)
+
+/-- split the token list at the `LT` markers -/
+def splitLTs : List String → List (List String)
+  | [] => []
+  | toks =>
+    let rec go (cur : List String) (acc : List (List String)) : List String → List (List String)
+      | [] => (cur.reverse :: acc).reverse
+      | "LT" :: rest => go [] (cur.reverse :: acc) rest
+      | t :: rest => go (t :: cur) acc rest
+    go [] [] toks
+
+def parseDiags : List String → Option (List (Int × List Int))
+  | [] => some []
+  | "D" :: i :: vals :: rest => do
+    let i ← parseInt? i
+    let vs ← parseIVec? vals
+    let r ← parseDiags rest
+    some ((i, vs) :: r)
+  | _ => none
+
+def parseLT (toks : List String) : Option RawLT := do
+  let ratio ← (kv? toks "ratio") >>= parseInt?
+  let lvl ← (kv? toks "lvl") >>= parseNat?
+  let scale ← (kv? toks "scale") >>= parseNat?
+  let ds ← parseDiags (toks.dropWhile (· != "D"))
+  some { ratio, lvl, scale, diags := ds }
+
+def redT (t : Nat) (x : Int) : Int := if t = 0 then x else x % (t : Int)
+
+def evalLine (toks : List String) : Option String := do
+  let blocks := splitLTs toks
+  let hd ← blocks.head?
+  let nth ← (kv? hd "nth") >>= parseNat?
+  let t ← (kv? hd "t") >>= parseNat?
+  let rows ← (kv? hd "rows") >>= parseNat?
+  let logCols ← (kv? hd "logcols") >>= parseNat?
+  let mode ← kv? hd "mode"
+  let inplace ← (kv? hd "inplace") >>= parseNat?
+  let ctlvl ← (kv? hd "ctlvl") >>= parseNat?
+  let ctscale ← (kv? hd "ctscale") >>= parseNat?
+  let outlvl ← (kv? hd "outlvl") >>= parseNat?
+  let qmodt ← (kv? hd "qmodt") >>= parseVec?
+  let v ← (kv? hd "v") >>= parseIVec?
+  let raws ← (blocks.drop 1).mapM parseLT
+  let cols := 2 ^ logCols
+  let O := fnOps cols
+  let vv : Slots cols := ofList cols v
+  -- allocation + encoding
+  let built := raws.map fun r =>
+    let idx := r.diags.map (·.1)
+    let (N1, keys) := allocate idx cols r.ratio
+    let dg : List (Int × Slots cols) := r.diags.map fun (d : Int × List Int) => (d.1, ofList cols d.2)
+    let adv0 := galoisElements nth idx cols r.ratio
+    let adv := if r.ratio < 0 then adv0 else (sortU (adv0.map Int.ofNat)).map Int.toNat
+    (N1, keys, adv, encode O cols N1 keys dg, r)
+  let head := String.join (built.map fun (N1, keys, adv, _, _) =>
+    s!"lt N1={N1} keys={showIVec keys} adv={showVec adv} ")
+  if built.any fun (_, _, _, e, _) => e.isNone then
+    return head ++ "encode-err"
+  let lts : List (LinTrans.LT (Slots cols)) := built.filterMap fun (N1, _, _, e, r) =>
+    e.map fun vec => { N1 := N1, logCols := logCols, levelQ := r.lvl, scale := r.scale, vec := vec }
+  let req := (reqMany (lts.map fun lt => (lt.N1, cols, lt.vec.map (·.1)))).map (Galois.galEl nth)
+  let showVals (r : EvalRes (Slots cols)) : String :=
+    match r with
+    | .val a => showIVec ((toList rows cols a).map (redT t))
+    | _ => "wrong"
+  let isPanic (r : EvalRes (Slots cols)) : Bool := match r with | .panic => true | _ => false
+  if mode == "seq" then
+    -- requests: one EvaluateMany per step (ctPreRot is not shared between calls)
+    let req := (lts.flatMap fun lt => reqMany [(lt.N1, cols, lt.vec.map (·.1))]).map (Galois.galEl nth)
+    let r := evalSeq O lts vv
+    if isPanic r then return head ++ s!"req={showVec req} panic"
+    if t = 0 then
+      -- ckks: level only (one level per step), scale not tied
+      let lvl := lts.foldl (fun (acc : Option Nat) lt =>
+        match acc with
+        | none => none
+        | some l => let m := min l lt.levelQ; if m = 0 then none else some (m - 1)) (some ctlvl)
+      match lvl with
+      | none => return head ++ s!"req={showVec req} err"
+      | some l => return head ++ s!"req={showVec req} ok out lvl={l} scale=- vals={showVals r}"
+    else
+      match seqMeta t qmodt ctlvl ctscale (lts.map fun lt => (lt.levelQ, lt.scale)) with
+      | none => return head ++ s!"req={showVec req} err"
+      | some (l, sc) => return head ++ s!"req={showVec req} ok out lvl={l} scale={sc} vals={showVals r}"
+  else
+    let rs := evalMany O lts vv (inplace == 0)
+    if rs.any isPanic then return head ++ s!"req={showVec req} panic"
+    let outs := (lts.zip rs).map fun (lt, r) =>
+      let ol := if mode == "many" || mode == "new" then lt.levelQ else outlvl
+      let m := outMeta t ol ctlvl lt.levelQ ctscale lt.scale
+      s!" out lvl={m.1} scale={m.2} vals={showVals r}"
+    return head ++ s!"req={showVec req} ok" ++ String.join outs
+
+def parsePerm : List String → Option (List (Nat × Int × Int × Nat))
+  | [] => some []
+  | "M" :: r :: f :: t :: s :: rest => do
+    let r ← parseNat? r
+    let f ← parseInt? f
+    let t ← parseInt? t
+    let s ← parseNat? s
+    let tl ← parsePerm rest
+    some ((r, f, t, s) :: tl)
+  | _ => none
+
+def handle (toks : List String) : String :=
+  match toks with
+  | ["bsgsindex", ds, slots, n1] =>
+    match parseIVec? ds, parseNat? slots, parseNat? n1 with
+    | some ds, some slots, some n1 =>
+      let b := bsgsIndex ds slots n1
+      s!"{showIdx b.index} {showIVec b.rotN1} {showIVec b.rotN2}"
+    | _, _, _ => badOp
+  | ["bestratio", ds, slots, lr] =>
+    match parseIVec? ds, parseNat? slots, parseNat? lr with
+    | some ds, some slots, some lr => toString (findBestBSGSRatio ds slots lr)
+    | _, _, _ => badOp
+  | ["galels", nth, ds, slots, ratio] =>
+    match parseNat? nth, parseIVec? ds, parseNat? slots, parseInt? ratio with
+    | some nth, some ds, some slots, some ratio =>
+      let g := galoisElements nth ds slots ratio
+      showVec (if ratio < 0 then g else (sortU (g.map Int.ofNat)).map Int.toNat)
+    | _, _, _, _ => badOp
+  | ["alloc", ds, logCols, ratio] =>
+    match parseIVec? ds, parseNat? logCols, parseInt? ratio with
+    | some ds, some lc, some ratio =>
+      let (n1, keys) := allocate ds (2 ^ lc) ratio
+      s!"{n1} {showIVec keys}"
+    | _, _, _ => badOp
+  | ["at", ds, i, slots] =>
+    match parseIVec? ds, parseInt? i, parseNat? slots with
+    | some ds, some i, some slots =>
+      match diagAt (ds.map fun d => (d, d)) i slots with
+      | some d => toString d
+      | none => "err"
+    | _, _, _ => badOp
+  | "permdiags" :: half :: rest =>
+    match parseNat? half, parsePerm rest with
+    | some half, some maps =>
+      let r := permDiagonals 2 half maps
+      if r.isEmpty then "-" else "|".intercalate (r.map fun kv => s!"{kv.1}:{showVec kv.2}")
+    | _, _ => badOp
+  | "eval" :: rest => (evalLine rest).getD badOp
+  | _ => badOp
 
 end Driver.C12
